@@ -23,7 +23,7 @@ ASSUMPTIONS = [
     "lone surrogates are never generated",
     "values containing wildcards are rejected by the base64 modifiers and are not generated for the wide modifiers",
 ]
-ALPHA = ["a", "-", "ä", "€", "\\", "=", "A", "\U0001F600"]
+ALPHA = ["a", "-", "ä", "€", "\\", "=", "A", "\U0001F600", "\\*", "\\?"]
 OFFSET_CHAINS = ["base64offset", "wide|base64offset", "utf16be|base64offset", "utf16|base64offset"]
 PLAIN_CHAINS = ["base64", "wide|base64", "utf16be|base64"]
 WIDE = ["wide", "utf16be", "utf16"]
@@ -80,6 +80,19 @@ def sigma_plain(s: str) -> str:
     return "".join(out)
 
 
+def has_wildcard(s: str) -> bool:
+    """does the Sigma string literal contain an unescaped '*' or '?'"""
+    i = 0
+    while i < len(s):
+        if s[i] == "\\" and i + 1 < len(s) and s[i + 1] in "\\*?":
+            i += 2
+        elif s[i] in "*?":
+            return True
+        else:
+            i += 1
+    return False
+
+
 def _value_strings(v):
     from sigma.types import SigmaExpansion
     if isinstance(v, SigmaExpansion):
@@ -94,7 +107,7 @@ def run_impl(case):
         if case["kind"] == "wide":
             it = SigmaDetectionItem.from_mapping("f|" + case["chain"], case["payload"])
             (v,) = it.value
-            return {"outcome": "ok", "value": cps(str(v)), "bytes": list(bytes(v))}
+            return {"outcome": "ok", "value": cps("".join(p for p in v.s if isinstance(p, str))), "bytes": list(bytes(v))}
         # value entering the base64 stage
         if len(chain) > 1:
             pre = SigmaDetectionItem.from_mapping("f|" + "|".join(chain[:-1]), case["payload"])
@@ -132,6 +145,11 @@ def judge(case, impl, reply):
     nt = nb >= 2
     tags = (f"kind:{case['kind']}", f"chain:{case['chain']}", f"len%3:{nb % 3}",
             "ascii" if case["payload"].isascii() else "non-ascii", f"impl:{io.split(':')[0]}")
+    if has_wildcard(case["payload"]):
+        # payloads are wildcard-free by the property's quantifier; the base64 modifiers must reject them
+        if case["kind"] != "wide" and io == "ok":
+            return Verdict("violation", f"f|{case['chain']} accepted a value with wildcards: {case['payload']!r}", nt, key, tags=tags)
+        return Verdict("ok", "", nt, key, tags=tags + ("unjudged:wildcard",))
     if io.startswith("other:"):
         return Verdict("violation", f"non-Sigma exception {io} for f|{case['chain']}: {case['payload']!r}", nt, key, tags=tags)
     if io.startswith("sigma:"):
